@@ -7,6 +7,8 @@ OBLIGATIONS = [
     ob('C02.cmp.datetime', CMP + 'c13_cmp_datetime', 'date arm: interval semantics (shared with C13)', units=['cmp']),
     ob('C02.between.inclusive', BETW + 'c02_between_inclusive', 'for all i64 x, a, b: the desugaring of `x between a and b`, evaluated through the real int arm, is a <= x <= b (inclusive at both ends)', units=['cmp', 'between']),
 ]
+OBLIGATIONS.append(dict(id='C02.quoted.literal', engine='V', verus_fn='Parser::parse_func_scalar', label='C02.quoted.literal', complete=True, bound=None, units=[], harness='verus:Parser::parse_func_scalar', tier='quick',
+    desc='for every token vector and cursor: if the operand token is a quoted literal (Lexem::String) the real parse_func_scalar returns Expr::value of exactly that text - never a column or a function - and consumes one token'))
 CANARIES = [dict(harness=CMP + 'canary_cmp_must_fail', units=['cmp'])]
 ASSUMPTIONS = ['float arm: stated for non-NaN operands', 'date arm: start <= finish']
 NOT_COVERED = ['get_field_value: which attribute is compared', 'literal -> number coercion (Variant::to_int / to_float, parse_filesize as a whole)', 'string arm (regex)', 'type dispatch on field_value.get_type()']
